@@ -93,7 +93,10 @@ def dump (sp : Space) (s : State) : String :=
   let empty := sp.cells.filter (isEmpty s)
   let full := sp.cells.filter (isFull sp s)
   let layer := if sp.isGrid then fmtCoords (sp.cells.filter fun c => s.flag c == some true) else "na"
-  s!"ag={" ".intercalate ags} | occ={" ".intercalate occ} | empty={fmtCoords empty} | full={fmtCoords full} | layer={layer} | pempty={layer} | empties={fmtCoords (empties sp s)} | agents={" ".intercalate ((spaceAgents sp s).map toString)} | reg={" ".intercalate (s.registry.map toString)}"
+  -- `cell.empty` off grids: a plain attribute that exists only once `add_agent` has run on the cell (`c:1` / `c:0`)
+  let attr := if sp.isGrid then "na" else
+    " ".intercalate (sp.cells.filterMap fun c => (s.flag c).map fun b => s!"{fmtCoord c}:{if b then 1 else 0}")
+  s!"ag={" ".intercalate ags} | occ={" ".intercalate occ} | empty={fmtCoords empty} | full={fmtCoords full} | layer={layer} | pempty={layer} | empties={fmtCoords (empties sp s)} | agents={" ".intercalate ((spaceAgents sp s).map toString)} | reg={" ".intercalate (s.registry.map toString)} | attr={attr}"
 
 def parseKind : String → Option AKind
   | "cell" => some .cell
